@@ -627,9 +627,10 @@ func pathOnlyVia(fn *ssa.Function, target ssa.Instruction, pred string) bool {
 
 func c21(r *Run) {
 	w := r.W
+	defer r.importRules(c20, "C20.R4")
 	r.rule("C21.R1", "K1/K20", "FinishStateSync under chainLock, refuses when ready, sets ready last after re-verification succeeded", 4)
 	r.rule("C21.R2", "K1", "target behind tip => reprocess then setLastAccepted; target == tip => setAccepted; then setLastProcessed", 4)
-	r.rule("C21.R3", "K2", "every failing processing block is recorded in the set given to the registered health check; pre-reject resolves", 6)
+	r.rule("C21.R3", "K2", "every failing processing block is recorded in the set given to the registered health check; pre-reject resolves", 7)
 	r.rule("C21.R4", "K6", "health checks", 2)
 	r.rule("C21.R5", "K1", "StartStateSync: index updated, then ready=false", 2)
 
@@ -738,6 +739,17 @@ func c21(r *Run) {
 				}
 			}
 			r.check(okP, "C21.R3", "verifyProcessingBlocks:unverified-parent-recorded", w.rel(vpb.Pos()), "", "a processing block whose parent is unverified is not recorded as unresolved")
+			// every processing block is examined: the loop is left only by exhaustion or by an error return
+			if h != nil {
+				ex := earlyLoopExits(h, naturalLoop(h))
+				at := w.rel(vpb.Pos())
+				if len(ex) > 0 {
+					at = r.at(w, ex[0].Instrs[len(ex[0].Instrs)-1])
+				}
+				r.check(len(ex) == 0, "C21.R3", "verifyProcessingBlocks:every-block-examined", at, "the loop over processing blocks has no break-like exit", "the loop over processing blocks stops early: later processing blocks are neither re-verified nor recorded as unresolved")
+			} else {
+				r.missing("C21.R3", "verifyProcessingBlocks:every-block-examined", "loop over processing blocks not found")
+			}
 			// verify runs on parent output
 			r.check(glob("(*snow.VM).GetBlock(*)#0.Output", term(vc[0].Common().Args[2])), "C21.R3", "verifyProcessingBlocks:verify(parent.Output)", r.at(w, vc[0]), "", "re-verification does not run on the parent's output")
 		} else {
